@@ -101,7 +101,7 @@ func runOp(p *pool, op []interface{}) (res string, again func() string) {
 	name := op[0].(string)
 	switch name {
 	case "check":
-		return errInfo(p.schemas[idx(1)].Check()), nil
+		return keepErr(p.schemas[idx(1)].Check())
 	case "len":
 		n, err := p.schemas[idx(1)].Len()
 		if err != nil {
@@ -130,11 +130,11 @@ func runOp(p *pool, op []interface{}) (res string, again func() string) {
 		return render(), render
 	case "validate":
 		// a document is a cursor: every validation gets its own fresh document over the same text (C12 wording: "each with its own document")
-		return errInfo(p.schemas[idx(1)].Validate(fjson.New("d", docText(p, idx(2))))), nil
+		return keepErr(p.schemas[idx(1)].Validate(fjson.New("d", docText(p, idx(2)))))
 	case "validateshared":
-		return errInfo(p.schemas[idx(1)].Validate(p.docs[idx(2)])), nil
+		return keepErr(p.schemas[idx(1)].Validate(p.docs[idx(2)]))
 	case "dcheck":
-		return errInfo(p.docs[idx(1)].Check()), nil
+		return keepErr(p.docs[idx(1)].Check())
 	case "dlen":
 		n, err := p.docs[idx(1)].Len()
 		if err != nil {
@@ -142,7 +142,7 @@ func runOp(p *pool, op []interface{}) (res string, again func() string) {
 		}
 		return fmt.Sprintf("%d", n), nil
 	case "echeck":
-		return errInfo(p.enums[idx(1)].Check()), nil
+		return keepErr(p.enums[idx(1)].Check())
 	case "elen":
 		n, err := p.enums[idx(1)].Len()
 		if err != nil {
@@ -163,7 +163,7 @@ func runOp(p *pool, op []interface{}) (res string, again func() string) {
 		}
 		return render(), render
 	case "rcheck":
-		return errInfo(p.regexes[idx(1)].Check()), nil
+		return keepErr(p.regexes[idx(1)].Check())
 	case "rlen":
 		n, err := p.regexes[idx(1)].Len()
 		if err != nil {
@@ -249,4 +249,21 @@ func init() {
 		b, _ := json.Marshal(out)
 		return string(b)
 	}
+}
+
+// keepErr: the error value is handed to the caller, who may look at it later: code, position AND rendered text are re-read after the whole history
+func keepErr(err error) (string, func() string) {
+	render := func() (out string) {
+		defer func() {
+			if r := recover(); r != nil {
+				out = "ERRORPANIC"
+			}
+		}()
+		if err == nil {
+			return "ok"
+		}
+		return errInfo(err) + "#" + hex.EncodeToString([]byte(err.Error()))
+	}
+	first := render()
+	return first, render
 }
